@@ -168,6 +168,16 @@ func (mr *msgReader) flateContextTakeover() bool {
 	return !mr.c.copts.clientNoContextTakeover
 }
 
+// readUnlock releases readMu. If the connection was closed while the lock was held,
+// e.g. by a received close frame, the resources guarded by readMu are released now
+// that no read is in progress.
+func (c *Conn) readUnlock() {
+	c.readMu.unlock()
+	if c.isClosed() {
+		c.close()
+	}
+}
+
 func (c *Conn) readRSV1Illegal(h header) bool {
 	// If compression is disabled, rsv1 is illegal.
 	if !c.flate() {
@@ -326,8 +336,9 @@ func (c *Conn) handleControl(ctx context.Context, h header) (err error) {
 
 	err = fmt.Errorf("received close frame: %w", ce)
 	c.writeClose(ce.Code, ce.Reason)
-	c.readMu.unlock()
-	c.close()
+	// We are still inside the read call stack which may include the flate reader.
+	// The owner of readMu releases the read resources once it unlocks.
+	c.closeTransport()
 	return err
 }
 
@@ -338,7 +349,7 @@ func (c *Conn) reader(ctx context.Context) (_ MessageType, _ io.Reader, err erro
 	if err != nil {
 		return 0, nil, err
 	}
-	defer c.readMu.unlock()
+	defer c.readUnlock()
 
 	if !c.msgReader.fin {
 		return 0, nil, errors.New("previous message not read to completion")
@@ -402,7 +413,7 @@ func (mr *msgReader) Read(p []byte) (n int, err error) {
 	if err != nil {
 		return 0, fmt.Errorf("failed to read: %w", err)
 	}
-	defer mr.c.readMu.unlock()
+	defer mr.c.readUnlock()
 
 	n, err = mr.limitReader.Read(p)
 	if mr.flate && mr.flateContextTakeover() {
